@@ -121,7 +121,7 @@ theorem getArch_lt {s : Bytes} {p : Bytes × Nat} (h : getArch s = some p) : p.2
     subst h
     exact archCode_lt hc
 
-theorem getPerm_lt {s : Bytes} {v : Nat} (h : getPerm s = some v) : v < 4294967296 := by
+theorem getPerm_lt16 {s : Bytes} {v : Nat} (h : getPerm s = some v) : v < 16 := by
   have key : ∀ (l : Bytes) (acc : Option Nat) (v : Nat), (∀ a, acc = some a → a < 16) →
       l.foldl (fun (acc : Option Nat) b =>
         match acc with
@@ -158,7 +158,10 @@ theorem getPerm_lt {s : Bytes} {v : Nat} (h : getPerm s = some v) : v < 42949672
             · split at hacc
               · simp at hacc; subst hacc; exact Nat.or_lt_two_pow (n := 4) hb (by omega)
               · simp at hacc
-  have := key s (some 0) v (by intro a ha; simp at ha; omega) h
+  exact key s (some 0) v (by intro a ha; simp at ha; omega) h
+
+theorem getPerm_lt {s : Bytes} {v : Nat} (h : getPerm s = some v) : v < 4294967296 := by
+  have := getPerm_lt16 h
   omega
 
 theorem getFiletype_lt {s : Bytes} {v : Nat} (h : getFiletype s = some v) : v < 4294967296 := by
@@ -175,6 +178,25 @@ theorem getFiletype_lt {s : Bytes} {v : Nat} (h : getFiletype s = some v) : v < 
       simp only [hp] at h
       split at h
       · simp at h; subst h; exact ok_toNat_lt hp
+      · simp at h
+    | _ => simp [hp] at h
+
+theorem getFiletype_mem {s : Bytes} {v : Nat} (h : getFiletype s = some v) : ∃ p ∈ filetypeNames, p.2 = v := by
+  unfold getFiletype at h
+  split at h
+  · rename_i w hw
+    simp at h; subst h
+    exact lookupB_mem hw
+  · cases hp : parseUintGo s 10 32 with
+    | ok w =>
+      simp only [hp] at h
+      split at h
+      · rename_i hany
+        simp only [Option.some.injEq] at h
+        obtain ⟨p, hp1, hp2⟩ := List.any_eq_true.mp hany
+        refine ⟨p, hp1, ?_⟩
+        have : (p.2 : Int) = w := by simpa using hp2
+        omega
       · simp at h
     | _ => simp [hp] at h
 
